@@ -78,8 +78,12 @@ pub fn edit(rng: &mut Rng, d: &[u8], which: u32) -> (Vec<u8>, &'static str) {
     if v.len() >= 24 {
         match which % 3 {
             0 => {
-                // key id: only bits that change the slot (the upper six bits are not significant, see C02)
-                v[0] ^= 1 + (rng.below(3) as u8);
+                // key id: another slot, the first values beyond the four slots, or a high bit set
+                match rng.below(3) {
+                    0 => v[0] ^= 1 + (rng.below(3) as u8),
+                    1 => v[0] = 4 + rng.below(4) as u8,
+                    _ => v[0] = [8u8, 16, 32, 64, 128, 254, 0x7f][rng.below(7) as usize],
+                }
                 (v, "edit-key-id")
             }
             1 => {
